@@ -432,10 +432,23 @@ func runGoit(goit, dir, home string, tzOffset int, args []string, extraEnv ...st
 	return r
 }
 
+var prlimitPath = func() string {
+	p, err := exec.LookPath("prlimit")
+	if err != nil {
+		return ""
+	}
+	return p
+}()
+
 func runGoitOnce(goit, dir, home string, tzOffset int, args []string, extraEnv ...string) (RunRes, bool) {
 	ctx, cancel := context.WithTimeout(context.Background(), 10*time.Second)
 	defer cancel()
+	// an address-space limit for the child: a command that allocates from an unchecked number (an id length, a
+	// count, `-n`) fails fast instead of exhausting the machine
 	cmd := exec.CommandContext(ctx, goit, args...)
+	if prlimitPath != "" {
+		cmd = exec.CommandContext(ctx, prlimitPath, append([]string{"--as=4294967296", "--", goit}, args...)...)
+	}
 	cmd.Dir = dir
 	tz := "UTC"
 	if tzOffset != 0 {
